@@ -351,7 +351,32 @@ func c16Snapshot(ns *eval.Ns) string {
 			fmt.Fprintf(&sb, "%s <no variable>\n", n)
 			continue
 		}
-		fmt.Fprintf(&sb, "%s @%p = %s\n", n, v, vals.ReprPlain(v.Get()))
+		fmt.Fprintf(&sb, "%s @%T%v = %s\n", n, v, v, vals.ReprPlain(v.Get()))
+	}
+	return sb.String()
+}
+
+// c16SnapDiff shows the lines of two snapshots that differ.
+func c16SnapDiff(before, after string) string {
+	in := func(lines []string, x string) bool {
+		for _, l := range lines {
+			if l == x {
+				return true
+			}
+		}
+		return false
+	}
+	b, a := strings.Split(before, "\n"), strings.Split(after, "\n")
+	var sb strings.Builder
+	for _, l := range b {
+		if l != "" && !in(a, l) {
+			sb.WriteString(" | before only: " + l)
+		}
+	}
+	for _, l := range a {
+		if l != "" && !in(b, l) {
+			sb.WriteString(" | after only: " + l)
+		}
 	}
 	return sb.String()
 }
@@ -470,7 +495,7 @@ func c16RunCase(c *vk.Ctx, w *c16Worker, route int, src string, exp int, label s
 		w.marks = 0
 	}
 	if s := c16Snapshot(ev.Global()); s != snap0 || ev.Global() != w.base {
-		c.Violate("check-changed-global", fmt.Sprintf("Check(%q) changed the global namespace:\nbefore:\n%safter:\n%s", src, snap0, s), src)
+		c.Violate("check-changed-global", fmt.Sprintf("Check(%q) changed the global namespace (name @variable = value):%s", src, c16SnapDiff(snap0, s)), src)
 		// continue with a fresh context so that the evaluation is judged on its own
 		w.release("", true)
 		ev, snap0 = w.context()
@@ -535,7 +560,7 @@ func c16RunCase(c *vk.Ctx, w *c16Worker, route int, src string, exp int, label s
 			c.Violate(rn+":ran-despite-static-error:command-called", fmt.Sprintf("[%s] %q reported a %s error (%v) but the command c16mark was called %d time(s)", rn, code, kind, msgErr, o.marks), code)
 		}
 		if snap1 != snap0 {
-			c.Violate(rn+":global-changed-after-static-error", fmt.Sprintf("[%s] %q reported a %s error (%v) but the global namespace changed:\nbefore:\n%safter:\n%s", rn, code, kind, msgErr, snap0, snap1), code)
+			c.Violate(rn+":global-changed-after-static-error", fmt.Sprintf("[%s] %q reported a %s error (%v) but the global namespace changed (name @variable = value):%s", rn, code, kind, msgErr, c16SnapDiff(snap0, snap1)), code)
 		}
 	}
 
